@@ -219,6 +219,14 @@ def gen_plan(rng, run_index, tier, opts):
                     ld["path"] = "run_from_json"
                     ld["rfj_grid"] = rng.choice(probes[:2])   # grid handed to run_from_json (overrides a stored one)
         steps.append(ld)
+        if ld.get("path") in ("run_from_json", "file") and not ld.get("fault") and rng.random() < 0.35:
+            # the same file is read again (by name): a second run with the stored grid after one with another grid, a second load
+            ld2 = {"op": "load", "path": ld["path"]}
+            if ld["path"] == "run_from_json" and not ld.get("rfj_grid") and not own_grid:
+                ld2["rfj_grid"] = rng.choice(probes[:2])
+            elif ld["path"] == "run_from_json" and ld.get("rfj_grid") and not own_grid:
+                ld2["rfj_grid"] = [g_ for g_ in probes[:2] if g_ != ld["rfj_grid"]][0] if len(set(probes[:2])) > 1 else ld["rfj_grid"]
+            steps.append(ld2)
         if st.get("fault") in ("enospc", "eio_close", "crash") or ld.get("fault"):
             # retry after the fault: a clean save + load must work again (bounded liveness)
             steps.append({"op": "save", "path": "file"})
@@ -230,6 +238,10 @@ def gen_plan(rng, run_index, tier, opts):
     if rng.random() < 0.4:
         n_proc = 1 + sum(1 for s_ in steps if s_["op"] == "restart" or s_.get("fault") == "crash")
         plan["proc_tz"] = [rng.choice(PROC_ZONES) for _ in range(n_proc)]
+    if rng.random() < 0.25:
+        # the locale's encoding (what open() uses when none is named), per process like the zone
+        n_proc = 1 + sum(1 for s_ in steps if s_["op"] == "restart" or s_.get("fault") == "crash")
+        plan["locale_enc"] = [rng.choice(["latin-1", "cp1252", "ascii", "iso8859-15", "utf-8"]) for _ in range(n_proc)]
     if rng.random() < 0.1:
         # a price column called after a delivery day (keys are free text)
         plan["date_like_price_key"] = True
@@ -595,6 +607,10 @@ class Run:
                 return
         self.events.append((i, "bundle", canon.digest_canon(eao.serialization.to_json(snap))))
 
+    def _bump_proc(self):
+        self.n_proc += 1
+        return self.n_proc
+
     def restart(self, i):
         # only SimDisk survives; reference snapshots are the oracle's memory, not the system's
         self.live = None
@@ -609,6 +625,9 @@ class Run:
             z_ = ptz[min(self.n_proc, len(ptz) - 1)]
             self.zone.set(z_)
             self.fault("process_zone_" + z_)
+        le = self.plan.get("locale_enc")
+        if le:
+            self.disk.default_encoding = le[min(self.n_proc if ptz else self._bump_proc(), len(le) - 1)]
         self.did_setup = False
         self.did_setup_aware = False
         self.events.append((i, "restart", ""))
@@ -770,6 +789,9 @@ class Run:
             if self.plan.get("proc_tz"):
                 zone.set(self.plan["proc_tz"][0])
                 self.fault("process_zone_" + self.plan["proc_tz"][0])
+            if self.plan.get("locale_enc"):
+                self.disk.default_encoding = self.plan["locale_enc"][0]
+                self.fault("locale_encoding_" + self.plan["locale_enc"][0])
             with core.quiet():
                 for i, st in enumerate(self.plan["steps"]):
                     self.step(i, st)
@@ -857,10 +879,11 @@ def simplify_candidates(plan):
                 c = copy.deepcopy(plan)
                 c["world"]["portfolios"][t]["assets"] = [x for x in assets if x != a]
                 yield c
-    if plan.get("proc_tz"):
-        c = copy.deepcopy(plan)
-        c.pop("proc_tz")
-        yield c
+    for k_ in ("proc_tz", "locale_enc"):
+        if plan.get(k_):
+            c = copy.deepcopy(plan)
+            c.pop(k_)
+            yield c
     for i, st in enumerate(plan["steps"]):
         if st.get("fault"):
             c = copy.deepcopy(plan)
